@@ -5,22 +5,22 @@ sys.path.insert(0, os.path.dirname(os.path.dirname(os.path.abspath(__file__))))
 from vlib.props import PROPS
 
 TEXT = {
- "C01": ("sanitizer monitoring (ASan+UBSan, CBOR_ASSERT armed) over exhaustive/grammar-directed inputs",
-         "Every byte string of <=3 bytes (<=4 thorough), every string over a 16-head alphabet up to 5 (7) symbols, every initial byte in 13 parent contexts with all truncations, ~40k grammar-generated items with their single-edit neighbours, and nesting chains around the limit are run through load, describe, size, serialize, serialize_alloc, copy, release and two streaming passes in exactly-sized heap blocks; any sanitizer report, assertion, signal, hang (30 s, confirmed in a fresh process), leak or third outcome is a violation. Exploration, not proof: paths not driven stay unjudged.", "DESIGN.md §3 C01"),
+ "C01": ("sanitizer monitoring (ASan+UBSan and clang MSan builds, CBOR_ASSERT armed) over exhaustive/grammar-directed inputs",
+         "Every byte string of <=3 bytes (<=4 thorough), every string over a 16-head alphabet up to 5 (7) symbols, every initial byte in 13 parent contexts with all truncations, ~40k grammar-generated items with their single-edit neighbours, and nesting chains around the limit are run through load, describe, size, serialize, serialize_alloc, copy, release and two streaming passes in exactly-sized heap blocks; any sanitizer report, assertion, signal, hang (30 s, confirmed in a fresh process), leak or third outcome is a violation; a second pass under MemorySanitizer (result struct and output buffers poisoned first) adds reads of uninitialised memory; multi-edit havoc mutations, every string length 0..320 and member counts across 127/128/255/256 are included. Exploration, not proof: paths not driven stay unjudged.", "DESIGN.md §3 C01"),
  "C02": ("differential monitoring against an independent RFC 8949 reference decoder",
-         "Same input spaces as C01; cbor_load's accept/reject, tree (types, widths, values, flavour, chunking, order), bytes read, sole ownership and independence from the (scribbled and freed) input buffer are compared with a reference decoder written from RFC 8949 Appendix C that shares no code with libcbor. Exhaustive on short inputs, enumerated shapes beyond.", "DESIGN.md §3 C02, Appendix A"),
+         "Same input spaces as C01; cbor_load's accept/reject, tree (types, widths, values, flavour, chunking, order), bytes read, sole ownership and independence from the (scribbled and freed) input buffer are compared with a reference decoder written from RFC 8949 Appendix C that shares no code with libcbor. Exhaustive on short inputs, enumerated shapes beyond; also under scrambled ambient errno/rounding mode, in release (-O3 -DNDEBUG) and -funsigned-char builds, with caller buffers larger than 4 GiB, and with every allocator request refused in turn (must not succeed, crash or leak).", "DESIGN.md §3 C02, Appendix A"),
  "C03": ("differential monitoring against an independent reference encoder; round-trip monitor",
-         "Trees returned by the decoder for ~1M accepted inputs and ~30k trees assembled through the construction API alongside a shadow tree (all builders and new+set, spare capacity, shared sub-items, handle-less strings, re-tagging) are serialized and compared byte for byte with the reference encoding, reloaded, compared, and serialized again, under ASan.", "DESIGN.md §3 C03"),
+         "Trees returned by the decoder for ~1M accepted inputs and ~30k trees assembled through the construction API alongside a shadow tree (all builders and new+set, spare capacity, shared sub-items, handle-less strings, re-tagging) are serialized and compared byte for byte with the reference encoding, reloaded, compared, and serialized again, under ASan and MSan (output bytes must be initialised); predicates/getters must be mutually consistent on every node and the type-specific serializer must agree with the generic one.", "DESIGN.md §3 C03"),
  "C04": ("model-based runtime monitoring: shadow ownership graph vs cbor_refcount and allocator free events, under ASan",
-         "Every precondition-respecting API history of <=5 ops over 4 item slots (2.25M histories; thorough adds length 6 over 3 slots, 31M) plus 100k (2M) random histories of up to 60 ops biased towards sharing; after every step each live item's refcount and the set of blocks the allocator saw released are compared with a shadow graph built from the documented ownership rules; every history ends by dropping all client references and must leave nothing allocated.", "DESIGN.md §3 C04, Appendix B"),
+         "Every precondition-respecting API history of <=5 ops over 4 item slots (2.25M histories; thorough adds length 6 over 3 slots, 31M) plus 100k (2M) random histories of up to 60 ops biased towards sharing; after every step each live item's refcount and the set of blocks the allocator saw released are compared with a shadow graph built from the documented ownership rules; every history ends by dropping all client references and must leave nothing allocated. Random histories include inserting ops run with an allocator that refuses everything (must fail and change nothing), re-attaching a string's own block, and a stage that carries reference counts across 2^16, 2^32, 2^48 and 2^63.", "DESIGN.md §3 C04, Appendix B"),
  "C05": ("differential monitoring of failure code/position against a reference classifier; sentinel-prefilled results",
          "Every rejected input of the C01/C02 spaces (all prefixes of enumerated well-formed items, all single-edit corruptions) is decoded twice with different sentinel fills; NULL result, every result field written, (code, position) within the reference's admissible set {eager, lazy}, MEMERROR only where a refusal was observed / a count exceeds what the allocator could hold / nesting exceeds L, and nothing left allocated.", "DESIGN.md §3 C05, §6.1, Appendix A"),
  "C06": ("exhaustive allocation-fault enumeration with an instrumenting allocator, under ASan+UBSan",
-         "For each scenario (cbor_load of each corpus input incl. truncated/corrupted ones, cbor_copy and cbor_serialize_alloc of each corpus and API-built tree, all 44 builder calls, push/set/map_add/add_chunk at 17 growth steps on 7 container kinds, build_tag) the fault-free request count N is measured, then N runs refuse request k only and N runs refuse k and all later: failure through the documented channel, arguments' semantic snapshot (contents, refcounts, identity) unchanged, live-block set unchanged. Complete for single-fault and fail-stop schedules per scenario; scenarios are sampled.", "DESIGN.md §3 C06"),
+         "For each scenario (cbor_load of each corpus input incl. truncated/corrupted ones, cbor_copy and cbor_serialize_alloc of each corpus and API-built tree, all 44 builder calls, push/set/map_add/add_chunk at 17 growth steps on 7 container kinds, build_tag) the fault-free request count N is measured, then N runs refuse request k only and N runs refuse k and all later: failure through the documented channel, arguments' semantic snapshot (contents, refcounts, identity) unchanged, live-block set unchanged. A refused cbor_load must report MEMERROR just past the very head during which the refused request was made (attributed by request counts of fault-free loads of the cut input). Also run under MSan. Complete for single-fault and fail-stop schedules per scenario; scenarios are sampled.", "DESIGN.md §3 C06"),
  "C07": ("runtime monitoring with ASan red zones on exactly-sized buffers plus sentinel images",
-         "For every tree of the C03 space (serialized size <=300 B quick / 5000 B thorough) cbor_serialize is called for every n in 0..size+2 into an exactly n-byte heap block and (selected n) into sentinel-filled oversized buffers; return value must be size or 0, nothing beyond n may change; cbor_serialize_alloc must return exactly size bytes with the same content. All 27 low-level encoders x boundary/exhaustive values x n=0..10: bytes written == return value, untouched on 0.", "DESIGN.md §3 C07"),
+         "For every tree of the C03 space (serialized size <=300 B quick / 5000 B thorough) cbor_serialize is called for every n in 0..size+2 into an exactly n-byte heap block and (selected n) into sentinel-filled oversized buffers; return value must be size or 0, nothing beyond n may change; cbor_serialize_alloc must return exactly size bytes with the same content. All 27 low-level encoders x boundary/exhaustive values x n=0..10: bytes written == return value, untouched on 0. Small trees are also serialized into a >8 GiB region with n = 2^32+k, 3*2^31+k, 2^33+k; API-built trees include partially filled definite containers whose capacity and fill level straddle 23/24, 255/256, 65535/65536.", "DESIGN.md §3 C07"),
  "C08": ("runtime contract monitoring with a 24-slot recording callback table vs a one-head reference tokeniser, ASan+UBSan",
-         "256 initial bytes x exhaustive 1- and 2-byte arguments x every buffer length 0..head+1 (and payload lengths around the buffer end), 4/8-byte arguments from every 2^k, 2^k+-1..2, width boundaries, lengths within 24 of 2^64 and seeded random: status, read, required (128-bit bound), exactly-one / no callback, slot, arguments, payload pointer, allocator silence, statelessness, independence from bytes beyond read.", "DESIGN.md §3 C08"),
+         "256 initial bytes x exhaustive 1- and 2-byte arguments x every buffer length 0..head+1 (and payload lengths around the buffer end), 4/8-byte arguments from every 2^k, 2^k+-1..2, width boundaries, lengths within 24 of 2^64 and seeded random: status, read, required (128-bit bound), exactly-one / no callback, slot, arguments, payload pointer, allocator silence, statelessness, independence from bytes beyond read; plus heads at the start of a >8 GiB region decoded with claimed buffer lengths 2^32-1 .. 2^33+65536.", "DESIGN.md §3 C08"),
  "C09": ("history monitoring: event log of a protocol-following client vs independent tokenisation of the whole stream",
          "5k (100k) streams (item concatenations, truncated tails, raw head sequences incl. stray breaks, reserved bytes and lengths up to 2^64-1) x every single cut point, byte-at-a-time and 8 random fragmentations; the client's buffer is re-allocated to the exact buffered size at every call so stale reads show under ASan.", "DESIGN.md §3 C09"),
  "C10": ("differential monitoring of encoders against independently computed RFC heads, decode-back with recording callbacks",
@@ -28,23 +28,23 @@ TEXT = {
  "C11": ("runtime monitoring of cbor_copy: dump equality, address-set disjointness, refcounts, mutate/release-one-check-other under ASan",
          "Every tree of the C03 space incl. shared sub-items: copy equal in shape and bytes, every copy node refcount 1 and at a distinct address, no block reachable from both trees, source snapshot (contents, refcounts, identity) unchanged; then copy mutated/released with the source re-checked, and source mutated/released with the copy re-checked.", "DESIGN.md §3 C11"),
  "C12": ("model-based runtime monitoring: abstract list model, reallocation counting allocator, ASan",
-         "Every sequence of <=5 (6) ops from {push, set(i), replace(i), get(i)} with i in 0..size+2 on definite arrays of capacity 0..8 and indefinite arrays, add-pair on maps, add-chunk on both chunked string kinds (27.6M sequences quick), 200k random histories with out-of-range indices, growth runs to 4k (64k) insertions with reallocations counted against 2*log2(n)+4.", "DESIGN.md §3 C12"),
+         "Every sequence of <=5 (6) ops from {push, set(i), replace(i), get(i)} with i in 0..size+2 on definite arrays of capacity 0..8 and indefinite arrays, add-pair on maps, add-chunk on both chunked string kinds (27.6M sequences quick), 200k random histories with out-of-range indices, growth runs to 4k (64k) insertions with reallocations counted against 2*log2(n)+4; inserting ops also run with an allocator that refuses everything; 56 far-out-of-range index values (2^31 .. 2^64-1, low bits hitting existing members) on every array flavour and fill level.", "DESIGN.md §3 C12"),
  "C13": ("allocator-provenance monitoring: hidden-header tagging allocator, libc-free arena with linker --wrap bypass detector, counting allocator",
-         "The C04 random histories and ~340k decoded corpus inputs (load, size, serialize, serialize_alloc, copy, describe, release) replayed under a tagging allocator (ASan and plain+MALLOC_CHECK_), an mmap arena with every libc malloc/calloc/realloc/free made from inside libcbor recorded via -Wl,--wrap, and a counting allocator for the allocates-nothing clause.", "DESIGN.md §3 C13"),
+         "The C04 random histories and ~340k decoded corpus inputs (load, size, serialize, serialize_alloc, copy, describe, release) replayed under a tagging allocator (ASan and plain+MALLOC_CHECK_), an mmap arena with every libc malloc/calloc/realloc/free made from inside libcbor recorded via -Wl,--wrap, and a counting allocator for the allocates-nothing clause; histories include refused allocations and re-attached string blocks under every allocator.", "DESIGN.md §3 C13"),
  "C14": ("metamorphic runtime monitoring under ASan (x alone in an exactly |x|-byte block)",
          "~5k (50k) generated items x (empty, all 256 single bytes, 32 items, 32 garbage strings, truncated copies of x), every accepted input of <=2 bytes and alphabet strings of 3-4 symbols x single bytes, and 20k (200k) concatenations of <=6 items split by repeated cbor_load.", "DESIGN.md §3 C14"),
  "C15": ("differential monitoring against an independent IEEE-754 conversion, UBSan for totality",
-         "All 65,536 half patterns (streaming and item path, two builds); singles: every 4096th pattern, every exponent x 18 boundary mantissas x sign, the neighbourhood of every half-representable value and 2M random (all 2^32 in the thorough tier); doubles: every exponent x 17 boundary mantissas x sign, all half values widened, 1M (200M) random.", "DESIGN.md §3 C15"),
+         "All 65,536 half patterns (streaming and item path, two builds); singles: every 4096th pattern, every exponent x 18 boundary mantissas x sign, the neighbourhood of every half-representable value and 2M random (all 2^32 in the thorough tier); doubles: every exponent x 17 boundary mantissas x sign, all half values widened, 1M (200M) random. Every case runs under a scrambled errno and rounding mode.", "DESIGN.md §3 C15"),
  "C16": ("differential monitoring against an independent RFC 3629 validator",
-         "Every byte sequence of length 0-3 through build_stringn, set_handle and cbor_load (all 2^32 of length 4 in the thorough tier through build_stringn, one in 32 through all three), 20k (200k) random valid texts with one injected fault (overlong, surrogate, >U+10FFFF, stray continuation, truncation) at every scalar position, texts at every length-head width.", "DESIGN.md §3 C16"),
+         "Every byte sequence of length 0-3 through build_stringn, set_handle and cbor_load (all 2^32 of length 4 in the thorough tier through build_stringn, one in 32 through all three), 20k (200k) random valid texts with one injected fault (overlong, surrogate, >U+10FFFF, stray continuation, truncation) at every scalar position, texts at every length-head width; all strings of up to 7 (9) symbols over an 8-byte UTF-8-significant alphabet; scalars split by runs of other scalars; a second set_handle on an item that held valid text; the sweeps repeated in -funsigned-char and release builds.", "DESIGN.md §3 C16"),
  "C17": ("ThreadSanitizer + per-thread result digests vs solo runs + writable-segment snapshot of the library DSO",
-         "40 (600) runs of 2-16 threads released by a barrier, each running a seeded workload over build/load/copy/serialize/size/serialize_alloc/describe/stream-decode/encode/getters/release on private items under TSan; the same in an unsanitized -O2 build with 1500 ops per thread; each thread's digest compared with the same workload run alone; and the writable PT_LOAD segment of libcbor built as a shared object compared byte for byte before/after workloads (schedule-independent detector of hidden global state). All interleavings are sampled, not enumerated; the observed concurrent API-pair matrix is reported.", "DESIGN.md §3 C17"),
+         "40 (600) runs of 2-16 threads released by a barrier, each running a seeded workload over build/load/copy/serialize/size/serialize_alloc/describe/stream-decode/encode/getters/release on private items under TSan; the same in an unsanitized -O2 build with 1500 ops per thread; each thread's digest compared with the same workload run alone; and the writable PT_LOAD segment of libcbor built as a shared object compared byte for byte before/after workloads (schedule-independent detector of hidden global state). All interleavings are sampled, not enumerated; the observed concurrent API-pair matrix is reported. Concurrent and solo runs differ in ambient errno and rounding mode, so dependence on thread-ambient state shows as a digest difference.", "DESIGN.md §3 C17"),
  "C18": ("memory-protection monitoring (mprotect + SIGSEGV attribution) at -O0 and -O2; ThreadSanitizer for concurrent readers",
-         "~40k trees (built by construction calls and by cbor_load) inside an arena zone that is write-protected before each of 16 read-only function groups is applied to every node; any store, even one undone before return, faults deterministically and is attributed to block and field; plus 400 (4000) shared trees read by 4/8 threads under TSan.", "DESIGN.md §3 C18"),
+         "~40k trees (built by construction calls and by cbor_load) inside an arena zone that is write-protected before each of 16 read-only function groups is applied to every node; any store, even one undone before return, faults deterministically and is attributed to block and field (getters are applied to every flavour their precondition allows); plus 800 (8000) shared trees read by 4/8 threads under TSan.", "DESIGN.md §3 C18"),
  "C19": ("runtime monitoring on a fixed, pre-painted thread stack with SIGSEGV on an alternate stack; per-L library builds",
-         "Library configured with CBOR_MAX_STACK_SIZE = L for L in {1, 3, 2048} (thorough: {1, 2, 3, 8, 64, 2048}), -O0 and -O2; 9 chain patterns x {scalar, chunked bytes, chunked text} innermost x depths {1, L-1, L, L+1, L+2, 4L} (thorough + 2L+1, 64L): outcome, MEMERROR position just past the head opening level L+1, and the whole pipeline within 64 KiB + 512 B x L of stack.", "DESIGN.md §3 C19"),
+         "Library configured with CBOR_MAX_STACK_SIZE = L for L in {1, 3, 2048} (thorough: {1, 2, 3, 8, 64, 2048}) at -O0 and -O2, plus 70000 (boundary depths only) so that a narrow depth counter would wrap; 9 chain patterns x {scalar, chunked bytes, chunked text, empty definite array, empty definite map} innermost x depths {1, L-1, L, L+1, L+2, 4L} (thorough + 2L+1, 64L): outcome, MEMERROR position just past the head opening level L+1, and the whole pipeline within 64 KiB + 512 B x L of stack.", "DESIGN.md §3 C19"),
  "C20": ("runtime monitoring against 128-bit arithmetic; exhaustive execution of the real source at narrow size_t; size-recording allocator",
-         "memory_utils.c re-compiled with 8-bit (all 65,536 pairs) and 16-bit size_t (all a x every 61st b plus all boundary rows; all 2^32 pairs thorough) under UBSan; the compiled 64-bit guards on the (2^i+d, 2^j+e) grid plus 5M (500M) random pairs; end to end: definite containers, 8-byte-count heads, growth from pretended capacities and serialized sizes with 2^k+d, k=20..64. The SMT proof named in the property's quantifier is outside this technique family and is not reproduced.", "DESIGN.md §3 C20"),
+         "memory_utils.c re-compiled with 8-bit (all 65,536 pairs) and 16-bit size_t (all a x every 61st b plus all boundary rows; all 2^32 pairs thorough) under UBSan; the compiled 64-bit guards on the (2^i+d, 2^j+e) grid plus 5M (500M) random pairs; end to end: definite containers, 8-byte-count heads, growth from pretended capacities and serialized sizes with 2^k+d, k=20..64; a string head whose payload is absent must not lead to an allocation of the declared length. The SMT proof named in the property's quantifier is outside this technique family and is not reproduced.", "DESIGN.md §3 C20"),
 }
 
 props = [json.loads(l) for l in open(os.path.join(os.path.dirname(__file__), "..", "properties.jsonl"))]
